@@ -15,9 +15,12 @@ import (
 	"net"
 	"os"
 	"path/filepath"
+	"reflect"
 	"sort"
 	"strings"
 	"sync"
+	"time"
+	"unsafe"
 
 	set "github.com/deckarep/golang-set"
 	"github.com/golang/protobuf/proto"
@@ -823,9 +826,13 @@ func newVP4EnvWith(in *vInst, conf *Conf, old *fakeP4) *vP4Env {
 		if cfg.EndMarker {
 			up.endMarkerChan = make(chan []byte, 1024)
 		}
-		up.SetUpfInfoNoLoop(in.u, conf)
-		if err := up.tryConnect(); err != nil {
-			panic("VERIF-INFRA: UP4 full start-up failed: " + err.Error())
+		// the real SetUpfInfo, including its keepTryingToConnect goroutine, which performs the connection
+		up.SetUpfInfo(in.u, conf)
+		for i := 0; !up.IsConnected(nil); i++ {
+			if i > 30000 {
+				panic("VERIF-INFRA: UP4 full start-up did not connect within 30 s")
+			}
+			time.Sleep(time.Millisecond)
 		}
 		return e
 	}
@@ -846,7 +853,8 @@ func newVP4EnvWith(in *vInst, conf *Conf, old *fakeP4) *vP4Env {
 	return e
 }
 
-// SetUpfInfoNoLoop mirrors UP4.SetUpfInfo without `go up4.keepTryingToConnect()`.
+// SetUpfInfoNoLoop mirrors UP4.SetUpfInfo without `go up4.keepTryingToConnect()` (fast path only; the full path
+// runs the real function, and vUP4StartupConformance compares the two results field by field).
 func (up4 *UP4) SetUpfInfoNoLoop(u *upf, conf *Conf) {
 	up4.conf = conf.P4rtcIface
 	up4.accessIP = MustParseStrIP(conf.P4rtcIface.AccessIP)
@@ -867,6 +875,11 @@ func (up4 *UP4) SetUpfInfoNoLoop(u *upf, conf *Conf) {
 }
 
 func (e *vP4Env) close() {
+	if e.in.cfg.FullStartup {
+		// keepTryingToConnect never ends: park it on its own mutex for good (it holds it only inside tryConnect,
+		// which returns at once while connected) so that it cannot reconnect to a later instance's switch
+		e.up4.tryConnectMu.Lock()
+	}
 	if e.in.cfg.FullStartup && e.up4.p4client != nil && e.up4.p4client.conn != nil {
 		if e.up4.p4client.stream != nil {
 			e.up4.p4client.stream.CloseSend()
@@ -1058,4 +1071,41 @@ func (e *vP4Env) stableKey(x *fpEntry, rn *vRenamer) string {
 	}
 	sort.Strings(ps)
 	return fmt.Sprintf("%s|%s|%d|%s|%s", x.Table, strings.Join(ms, ","), x.Prio, x.Action, strings.Join(ps, ","))
+}
+
+// vUP4StartupConformance builds one UP4 instance through the fast assembly and one through the real SetUpfInfo /
+// keepTryingToConnect / tryConnect over gRPC, with the same configuration, and returns the names of the UP4 (and upf)
+// fields in which the two differ. Fields that are per-instance by nature are skipped.
+func vUP4StartupConformance() (diff []string) {
+	skip := map[string]bool{"p4client": true, "connectedMu": true, "initOnce": true, "tryConnectMu": true,
+		"tunnelPeerMu": true, "applicationMu": true, "programMu": true, "p4RtTranslator": true, "endMarkerChan": true,
+		"reportNotifyChan": true, "host": true, "conf": true}
+	snap := func(full bool) map[string]any {
+		in := newVInst(vCfg{P4: true, NConns: 1, UEIPAlloc: true, Pool: "10.250.0.0/29", EndMarker: true, FullStartup: full,
+			P4Conf: &vP4Cfg{SliceID: 3, DefaultTC: 2, QFIToTC: map[uint8]uint8{9: 1}}})
+		defer in.close()
+		out := map[string]any{}
+		v := reflect.ValueOf(in.p4.up4).Elem()
+		for i := 0; i < v.NumField(); i++ {
+			name := v.Type().Field(i).Name
+			if skip[name] {
+				continue
+			}
+			out["UP4."+name] = reflect.NewAt(v.Field(i).Type(), unsafe.Pointer(v.Field(i).UnsafeAddr())).Elem().Interface()
+		}
+		c := in.p4.up4.conf
+		c.P4rtcServer, c.P4rtcPort = "", ""
+		out["UP4.conf"] = c
+		out["upf.accessIP"], out["upf.coreIP"] = in.u.accessIP.String(), in.u.coreIP.String()
+		out["switch contents after start-up"] = in.p4.digest(&vRenamer{seid: map[uint64]string{}, teid: map[uint32]string{}, ue: map[uint32]string{}})
+		return out
+	}
+	a, b := snap(false), snap(true)
+	for k, va := range a {
+		if !reflect.DeepEqual(va, b[k]) {
+			diff = append(diff, fmt.Sprintf("%s: fast=%v full=%v", k, va, b[k]))
+		}
+	}
+	sort.Strings(diff)
+	return diff
 }
